@@ -8,7 +8,7 @@ import json
 import random
 
 from . import faults, loader, worlds
-from .seams import EntropySource
+from .seams import EntropySource, make_entropy
 from .model.spec import SpecNode, SpecError, parse_state_strict, FormatError
 
 
@@ -34,7 +34,7 @@ class Node:
         self.host = cfg.get("host", 0)
         self.subclass = bool(cfg.get("subclass"))
         self.impl = cfg.get("impl", "real")
-        self.entropy = EntropySource(cfg.get("entropy"))
+        self.entropy = make_entropy(cfg.get("entropy"))
         self.inst = None          # volatile
         self.slot = None          # durable blob
         self.slot_meta = None     # (cls, pset, impl) that wrote the slot
@@ -320,6 +320,8 @@ class World:
         K = n.lib().klass(cls, n.subclass)
         try:
             P = n.lparams(pset)
+            if step.get("pinned") is not None:
+                K = n.lib().klass_pinned(cls, n.lparams(step["pinned"]))
         except Exception as ex:
             return self.log(step, "exc:params:" + type(ex).__name__)
         r = self._call(n, "from_serialized", lambda: K.from_serialized(n.slot, params=P))
@@ -330,6 +332,8 @@ class World:
         n.restored_type_ok = type(r[1]) is K
         n.restores += 1
         n.calls = [("restore", "inst")]
+        if step.get("pinned") is not None:
+            pset = step["pinned"]           # the parameter set the instance really uses
         if (cls, pset) != (saved_cls, saved_pset):
             n.wrong_restore = True
         n.cur_cls, n.cur_pset = cls, pset
